@@ -306,7 +306,37 @@ pub fn generate(rng: &mut Rng, _prop: Prop) -> Scenario {
                 let mut total = 0usize;
                 let unsupported_inside = rng.chance(1, 8);
                 let nm = if rng.chance(1, 10) { rng.urange(5, 40) } else { rng.urange(1, 4) };
-                for i in 0..nm {
+                // crowd: a long run of tiny (mostly empty-bodied) messages in one record - far more
+                // than any small fixed bound; the same few values are referenced many times
+                let crowd = !ccs && !unsupported_inside && rng.chance(1, 12);
+                if crowd {
+                    let mut tiny = Vec::new();
+                    for _ in 0..rng.urange(1, 3) {
+                        let m = match rng.below(4) {
+                            0 | 1 => Item::new("hello_request"),
+                            2 => Item::new("finished").bytes("body", &[]),
+                            _ => {
+                                let bl = rng.below(2) as usize;
+                                Item::new("client_key_exchange").bytes("body", &rng.bytes(bl))
+                            }
+                        };
+                        total = total.max(reference_bytes(&m).len());
+                        s.push(m.int("_id", id));
+                        tiny.push(id as u8);
+                        id += 1;
+                    }
+                    let n = match rng.below(3) {
+                        0 => *rng.pick(&[31usize, 32, 33, 34, 63, 64, 65, 127, 128, 129, 255, 256, 257]),
+                        1 => rng.urange(35, 400),
+                        _ => rng.urange(400, 3000),
+                    };
+                    let same = rng.chance(1, 2);
+                    for _ in 0..n {
+                        ids.push(if same { tiny[0] } else { *rng.pick(&tiny) });
+                    }
+                    total *= n;
+                }
+                for i in 0..(if crowd { 0 } else { nm }) {
                     let m = if ccs {
                         Item::new("ccs")
                     } else if unsupported_inside && i == 0 {
@@ -328,7 +358,7 @@ pub fn generate(rng: &mut Rng, _prop: Prop) -> Scenario {
                     ids.push(id as u8);
                     id += 1;
                 }
-                if !ccs && !unsupported_inside && rng.chance(1, 6) && total < 16000 {
+                if !ccs && !unsupported_inside && !crowd && rng.chance(1, 6) && total < 16000 {
                     // fill the record up to the top band: 2^14 - 1 .. 2^14 + 256 payload bytes
                     let want = *rng.pick(&[16383usize, 16384, 16385, 16500, 16639, 16640]);
                     if want > total + 4 {
